@@ -100,6 +100,10 @@ def run(index, rep, tier):
     with rep.section("R03.4 identity selection"):
         rep.floor("R03.4", "membership filters over a stored bipartition encoding", 1, identity_selection_rule(index, rep, "R03.4", [TM + "_tree"]))
 
+    # ---------------- R03.2 raise after restructuring
+    with rep.section("R03.2 raise after restructuring"):
+        rep.floor("R03.2", "explicit raises in tree-model methods that restructure", 8, raise_after_restructure_rule(index, rep, "R03.2", [TM + "_tree", TM + "_node", TM + "_edge"]))
+
     # ---------------- R03.2 failure atomicity
     with rep.section("R03.2 failure atomicity"):
         rep.floor("R03.2", "explicit raises in the link book-keeping functions", 4, failure_atomicity_rule(index, rep, "R03.2", sorted(LINK_WRITERS)))
@@ -560,6 +564,49 @@ def failure_atomicity_rule(index, rep, rid, quals):
                       "%s: `%s` is reached before any link field is written" % (fi.name, norm_stmt(r.stmt)[:50]),
                       "%s writes `%s` and can then raise `%s`: the caller gets the documented error but the tree is left half-edited (a node still listed under its parent with its parent pointer / edge tail cleared), so a refused operation does not leave the tree well formed"
                       % (fi.qualname, norm_stmt(bad.stmt)[:60] if bad is not None else "", norm_stmt(r.stmt)[:70]))
+    return n
+
+
+def raise_after_restructure_rule(index, rep, rid, modules):
+    """An explicit `raise` in a method of the tree model must not come after that method has already changed the
+    structure (directly or by calling a structure-changing method): the documented error would be raised on a
+    tree that is no longer what it was."""
+    n = 0
+    for m in modules:
+        for fi in index.functions_in_module(m):
+            if fi.cls is None or fi.name == "__init__":
+                continue
+            raises = [x for x in walk_no_nested(fi.node) if isinstance(x, ast.Raise) and x.exc is not None]
+            if not raises:
+                continue
+            has_struct = any(isinstance(c.func, ast.Attribute) and c.func.attr in STRUCT_CALLS for c in calls_in(fi.node))
+            if not has_struct:
+                continue
+            cfg = cfg_of(fi)
+            changes = [x for x in cfg.nodes if any(isinstance(c.func, ast.Attribute) and c.func.attr in STRUCT_CALLS for c in node_calls(x))]
+            for r in raises:
+                rn = stmt_nodes(cfg, r)
+                if not rn:
+                    continue
+                n += 1
+                bad = None
+                for x in changes:
+                    # same pass only: a later iteration of a pruning loop refusing to go on is a different matter
+                    after = [t for lab, t in x.succ if lab != "e"]
+                    if any(y is rn[0] for y in cfg.reach(after, follow_exc=True, avoid=lambda y: y.kind in ("for", "join"))):
+                        # ... and on an object that existed before the call (not a node this function has just created)
+                        recv = [c.func.value for c in node_calls(x) if isinstance(c.func, ast.Attribute) and c.func.attr in STRUCT_CALLS]
+                        root = recv[0] if recv else None
+                        while isinstance(root, (ast.Attribute, ast.Subscript)):
+                            root = root.value
+                        fresh = isinstance(root, ast.Name) and any(isinstance(a, ast.Assign) and norm(a.targets[0]) == root.id and isinstance(a.value, ast.Call)
+                                                                     and (call_name(a.value) or "").lower().endswith(("factory", "node", "tree", "new_node")) for a in walk_no_nested(fi.node))
+                        if not fresh:
+                            bad = x
+                            break
+                rep.check(bad is None, rid, fi.qualname, "`%s` can follow the structural change `%s`" % (norm_stmt(r)[:50], norm_stmt(bad.stmt)[:40] if bad is not None else ""), fn_where(fi, r),
+                          "%s: `%s` is raised before any structural change" % (fi.name, norm_stmt(r)[:50]),
+                          "%s can raise `%s` after it has already executed `%s`: the caller gets the documented error, but the tree has been changed (a node detached, a taxon lost, a unifurcation left behind) - an operation that refuses must leave the tree well formed and as it was" % (fi.qualname, norm_stmt(r)[:70], norm_stmt(bad.stmt)[:60] if bad is not None else ""))
     return n
 
 
